@@ -683,6 +683,9 @@ func (e *ArithmeticExpression) Evaluate(ctx *Context, input system.Collection) (
 	if errors.Is(err, system.ErrIntOverflow) {
 		return system.Collection{}, nil // "Operations that cause arithmetic overflow or underflow will result in empty ( { } )".
 	}
+	if errors.Is(err, errDivideByZero) {
+		return system.Collection{}, nil // "If the divisor is 0, the result is empty ( { } )".
+	}
 	if err != nil {
 		return nil, err
 	}
